@@ -47,6 +47,22 @@ def run(ctx, b, broken):
                 (["int", "a", "[", "]", "=", "{", "["], 3, ["]", "=", "1", "}", ";"]), (["int", "a", "[", "]", "=", "{"], 2, [",", "2", "}", ";"]),
                 (["_Static_assert", "("], 3, [",", "\"m\"", ")", ";"]), (["_Alignas", "("], 3, [")", "int", "x", ";"]),
                 (["struct", "S", "s", "=", "{", ".", "m", "="], 2, ["}", ";"]), (["int", "x", "=", "(", "int", ")"], 14, [";"])]
+    # systematically: every tiny operand in every position, bare and wrapped in one and two pairs of parentheses
+    TINY = ["1", "- 1", "+ 1", "~ 0", "! 0", "- x", "- - 1", "- 1u", "- 'a'", "- 1.5", "* p", "& x", "x", "x + 1", "1 - 2", "- 1 + 2", "x [ 0 ]", "f ( 1 )",
+            "sizeof x", "sizeof ( int )", "( int ) 1", "( int ) - 1", "x ++", "-- x", "1 ? 2 : 3", "\"s\"", "- 0x10", "- 010", "K", "- K"]
+    for pre, prec, post in CONTEXTS:
+        for e_txt in TINY:
+            keys = []
+            # in an operand position of sizeof / a cast the bare form may legitimately group differently (sizeof x + 1): compare the wrapped forms only
+            for wrap in ((0, 1, 2) if prec < 14 else (1, 2)):
+                text = " ".join(pre + ["("] * wrap + [e_txt] + [")"] * wrap + post)
+                ctx.evaluations += 1
+                ctx.count("parens:tiny")
+                io = impl_parse(text, wc=False)
+                su.corr(text, impl_parse(text), tag="redundant parentheses (tiny operands)")
+                keys.append((io.rsplit(US, 1)[0] if io.startswith("OK") else io, text))
+            if keys[0][0].startswith("OK") and len({k for k, _ in keys}) != 1:
+                su.violation(keys[1][1], "redundant parentheses changed the AST", {"first": keys[0][1], "last": keys[-1][1]})
     for _ in range(900 if ctx.tier == "quick" else 12000):
         e = g.expr(ctx.rng.choice([0, 1, 1, 2, 2, 3, 4]))
         pre, prec, post = ctx.rng.choice(CONTEXTS)
